@@ -208,6 +208,9 @@ class Evaluator:
             r = self.hook(n, self)
             if r is not NotImplemented:
                 return r
+        if ast.unparse(n.func) == 'six.raise_from' and n.args:
+            # six.raise_from(X, cause): a raise statement in function form
+            raise Raised(ast.unparse(n.args[0]))
         args = [self.ev(a) for a in n.args]
         kwargs = {k.arg: self.ev(k.value) for k in n.keywords}
         if isinstance(n.func, ast.Name) and n.func.id in BUILTINS and n.func.id not in self.env:
@@ -318,6 +321,17 @@ class Evaluator:
                 self.ev(st.value)
             elif isinstance(st, ast.Pass):
                 continue
+            elif isinstance(st, ast.Delete):
+                for t in st.targets:
+                    if isinstance(t, ast.Name):
+                        self.env.pop(t.id, None)
+                    elif isinstance(t, ast.Subscript) and not isinstance(t.slice, ast.Slice):
+                        base = self.ev(t.value)
+                        if not isinstance(base, (dict, list, Native)):
+                            raise Unsupported('item deletion on %s' % type(base).__name__)
+                        del base[self.ev(t.slice)]
+                    else:
+                        raise Unsupported('del %s' % ast.unparse(t))
             else:
                 raise Unsupported('statement %s' % type(st).__name__)
 
